@@ -59,6 +59,10 @@ def handle (toks : List String) : Option String :=
     let b ← pHx h
     let (v, n) := uvarint b
     some s!"{v} {n}"
+  | ["typenew", n] => do
+    -- `Type.New()`: a packet value for the 14 defined types, an error for the two reserved nibbles — never a panic
+    let n ← n.toNat?
+    some (if 1 ≤ n ∧ n ≤ 14 then "ok" else "err")
   | ["putuvarint", n] => do some (hx (putUvarint (← n.toNat?)))
   | ["varintlen", n] => do some (toString (varintLen (← n.toNat?)))
   | "getid" :: rest => do
